@@ -53,7 +53,8 @@ TEXT = {
                    "after EVERY compute() whatever the accessors hand back is judged in long double (unit norm, residual against tol*scale + rounding with the back-transformed scale in shift mode, "
                    "orthonormality). The seeded exploration draws from the domain on which the repaired tree is clean; a fixed seed-independent corpus covers the finding-prone domain "
                    "(breakdown-prone classes, far-from-unit scales, tiny problems; second part: the well-behaved classes at norms 1e-12..1e-3 and 1e3..1e8 with tolerances 1e-11..1e-14 and runs of up to "
-                   "1000 restarts) and its failing members are listed one by one in known_findings.json.",
+                   "1000 restarts) and its failing members are listed one by one in known_findings.json. Every exploration history ends with a start-vector scale-invariance probe: init(v0) and init(2^e v0) "
+                   "followed by the same compute() must give the same bits (eigenvector + perturbation and gaussian starts).",
         design_ref="DESIGN.md sections 3 (C01) and 4",
         level_note=NOTE_COMMON,
         technique="runtime oracle (extended-precision residual / orthonormality monitor at the public accessors) over seeded histories + fixed regression corpus, ASan+UBSan build"),
@@ -120,7 +121,8 @@ TEXT = {
                    "(mapped to the iterated spectrum) must be the rule's top choice among the Ritz values of the final factorization (read through the guarded friend) - deterministic, catches any "
                    "selection-logic slip; (2) when Successful, the returned set must equal the rule's top-k of the true spectrum - judged strictly for ncv = n, where it is exact for every rule, and on a "
                    "fixed corpus elsewhere (implicit restart with early stopping misses sporadically; observed misses are counted in the evidence and the failing corpus members are listed). "
-                   "Half of the cases then ask the same object again, without init(), for a different rule and judge that answer with both oracles.",
+                   "Half of the cases then ask the same object again, without init(), for a different rule and judge that answer with both oracles. A second corpus part repeats the construction with spectrum and shifts "
+                   "multiplied by 1e-12..1e-4 / 1e4..1e8 (every oracle here is relative to the key spread).",
         design_ref="DESIGN.md sections 3 (C04) and 4",
         level_note=NOTE_COMMON + " Davidson, PartialSVD and LOBPCG selection is judged in C15, C16, C17.",
         technique="runtime reference-model comparison (prescribed spectra) + Ritz-relative selection oracle through guarded friend access; plain build"),
@@ -142,7 +144,7 @@ TEXT = {
         level_note=NOTE_COMMON + " The documented predicates are taken from the class documentation; general product wrappers legitimately accept rectangular input.",
         technique="exhaustive runtime enumeration of the argument box with exception-type oracle, allocation monitor and LeakSanitizer"),
     "C15": dict(
-        level_text="Exploration: ~4400 (quick) Davidson runs over dense and sparse operators, seven matrix classes, all sizes of the search space, four rules, four kinds of initial space; finiteness judged "
+        level_text="Exploration: ~4400 (quick) Davidson runs over dense and sparse operators, seven matrix classes, all sizes of the search space, four rules, five kinds of initial space (none, orthonormal, non-orthonormal, exactly rank-deficient, unit vectors of decoupled coordinates); finiteness judged "
                    "on every outcome, true residual / unit norm / orthonormality / ordering judged in long double on every Successful run; axis-aligned matrices (exactly zero corrections) form a fixed corpus "
                    "whose failing members are listed.",
         design_ref="DESIGN.md sections 3 (C15) and 4",
@@ -157,7 +159,7 @@ TEXT = {
         technique="runtime oracle (dense reference SVD, extended-precision factor identities, bitwise fresh-vs-reused comparison) over generated inputs + fixed regression corpus, ASan+UBSan build"),
     "C17": dict(
         level_text="Exploration: 4000 (quick) / 40000 (thorough) LOBPCG runs on pencils with prescribed well-separated smallest eigenvalues (positive and indefinite A), with/without B and preconditioner, block sizes incl. the rejected "
-                   "ones, cold starts and warm starts (the wanted eigenvectors in descending order, a rotated basis of their span, perturbed; maxit from 0); on reported success every clause of the statement is judged against a dense generalized reference, and residuals() is checked against the private iterate read through the guarded friend.",
+                   "ones, cold starts and warm starts (the wanted eigenvectors in descending order, a rotated basis of their span, perturbed; maxit from 0), three ownership modes for the matrices handed over (kept / temporaries / reassigned before compute()); on reported success every clause of the statement is judged against a dense generalized reference, and residuals() is checked against the private iterate read through the guarded friend.",
         design_ref="DESIGN.md section 3, C17",
         level_note=NOTE_COMMON + " UBSan's null / pointer-overflow checks are off in this driver (Eigen-internal empty sparse products).",
         technique="runtime oracle (dense generalized reference, residual identity through guarded friend access) over generated inputs, ASan+UBSan build"),
